@@ -38,7 +38,7 @@ def gen_cases(n, sd, thorough):
             d = rng.randint(lo, hi)
         else:
             d = rng.randint(10590, 24470)       # 1999 .. 2036
-        tod = rng.choice([0, 0, 615, 870, 1, 869])
+        tod = rng.choice([0, 0, 615, 870, 1, 869, 0, 0, 615, 870, 1, 869, 900, 1260, 1261, 1350, 1439])     # any time of day, also after the close
         span = rng.choice([0, 0, 1, 2, 3, 5, 7, 8, 13, 30, 31, 45, 62])
         etod = rng.choice([t for t in (0, 1, 615, 869, 870, 1260, 1439) if t >= tod])
         start, end = d * 1440 + tod, (d + span) * 1440 + etod
@@ -126,6 +126,7 @@ def real(case):
         eng = DailyBusinessDaySimulationEngine(S, E, pre_market=pre, post_market=post)
         evs = [(minutes(e.ts), e.event_type) for e in eng]
         out["clock"] = ("ok", evs)
+        out["clock_again"] = [(minutes(e.ts), e.event_type) for e in eng]      # the same engine object, iterated once more
     except Exception as e:
         out["clock"] = ("err", type(e).__name__)
     if end >= start:
@@ -221,6 +222,9 @@ def run(prop, replay_file=None):
                     viol("clock|raised", "clock raised %s" % got["clock"][1])
                 elif got["clock"][1] != exp:
                     viol("clock|events", "clock events differ: first difference %s" % (_first_diff(got["clock"][1], exp),))
+                elif got["clock_again"] != exp:
+                    viol("clock|second-iteration", "iterating the same engine object a second time gives %d events instead of %d: %s" % (
+                        len(got["clock_again"]), len(exp), _first_diff(got["clock_again"], exp)))
                 if len(set(x // 4 // 1440 for x in clock)) >= 3:
                     nontriv.add(tuple(case[:4]))
         else:
